@@ -390,3 +390,7 @@ mod tests {
         Ok(())
     }
 }
+
+#[cfg(kani)]
+#[path = "/verif/harness/csi/reference_sequence.rs"]
+mod verif_kani;
